@@ -112,6 +112,8 @@ type osim struct {
 	lc      *nclifecycle.Controller
 	roundN  int
 	writes  int // successful API writes seen so far (fix-point detection)
+	rmu      sync.Mutex
+	starting string // command whose StartCommand is running: its replacement creates are recorded in arrival order
 
 	gmu     sync.Mutex
 	gSeen   map[int]int
@@ -210,6 +212,21 @@ func (o *osim) withPlan(st OStep, f func()) {
 	defer func() {
 		w.Gate = nil
 		w.ClearFaults()
+		// hooks whose call never came (the step took another path): the environment steps still happen, after the step
+		o.gmu.Lock()
+		var late []OStep
+		for i, a := range o.gAt {
+			if !o.gAtDone[i] {
+				late = append(late, a.Steps...)
+			}
+		}
+		o.gAt, o.gCut = nil, nil
+		o.gmu.Unlock()
+		for _, ls := range late {
+			if err := o.ostep(ls); err != nil {
+				o.w.Emit(trace.M{"e": "Note", "what": "at-error", "kind": "-", "name": "-", "msg": err.Error()})
+			}
+		}
 	}()
 	f()
 }
@@ -339,17 +356,23 @@ func (o *osim) startCmd(st OStep) error {
 	o.w.Emit(trace.M{"e": "Begin", "controller": "disruption.start", "object": st.Cmd})
 	var errS string
 	var panicked bool
+	o.rmu.Lock()
+	o.starting = st.Cmd
+	o.repl[st.Cmd] = nil
+	o.rmu.Unlock()
 	o.withPlan(st, func() {
 		errS, panicked = o.guarded(nil, func() error { return o.queue.StartCommand(o.dctx(), cmd) })
 	})
+	o.rmu.Lock()
+	o.starting = ""
+	names := append([]string{}, o.repl[st.Cmd]...) // replacements in the order their creates arrived (also when StartCommand failed)
+	o.rmu.Unlock()
 	started := false
 	for _, c := range o.queue.GetCommands() {
 		if c == cmd {
 			started = true
 		}
 	}
-	names := replNames(cmd)
-	o.repl[st.Cmd] = names
 	if !st.Lag {
 		o.hydrate()
 	}
@@ -439,7 +462,9 @@ func (o *osim) discover() {
 }
 
 func (o *osim) replClaim(st OStep) (*v1.NodeClaim, bool) {
-	names := o.repl[st.Cmd]
+	o.rmu.Lock()
+	names := append([]string{}, o.repl[st.Cmd]...)
+	o.rmu.Unlock()
 	if st.I < 0 || st.I >= len(names) || names[st.I] == "-" {
 		return nil, false
 	}
@@ -729,6 +754,13 @@ func RunOrchOne(sc *OScenario, tw *trace.Writer) (err error) {
 	w.Sink = func(m trace.M) {
 		if m["e"] == "Api" && m["err"] == "-" {
 			o.writes++
+			if m["verb"] == "create" && m["kind"] == "NodeClaim" && m["actor"] == "disruption" {
+				o.rmu.Lock()
+				if post, ok := m["post"].(trace.M); ok && o.starting != "" {
+					o.repl[o.starting] = append(o.repl[o.starting], fmt.Sprint(post["name"]))
+				}
+				o.rmu.Unlock()
+			}
 		}
 		tw.Emit(m)
 	}
